@@ -8,6 +8,7 @@ import (
 	"sort"
 	"strings"
 	"sync"
+	"syscall"
 	"time"
 
 	"github.com/wmnsk/go-pfcp/ie"
@@ -470,6 +471,38 @@ func runXlate(res *vh.Result, prop string) {
 		}
 		if prop != "C03" {
 			return
+		}
+		// some of the URRs are removed again - a third of these removals is refused by the kernel (DEL_URR fails):
+		// the control plane has given the URR up either way, so it must leave the periodic set
+		var keys [][2]uint64
+		for k := range urrSeen {
+			keys = append(keys, k)
+		}
+		sort.Slice(keys, func(i, j int) bool {
+			if keys[i][0] != keys[j][0] {
+				return keys[i][0] < keys[j][0]
+			}
+			return keys[i][1] < keys[j][1]
+		})
+		for _, k := range keys {
+			if !rng.Chance(1, 3) {
+				continue
+			}
+			refuse := rng.Chance(1, 3)
+			if refuse {
+				d.K.SetFailCmd(vh.KCmdDelURR, syscall.ENOMEM)
+			}
+			pi, _ := ie.Parse(vh.Grp(vh.TRemoveURR, vh.URRID(uint32(k[1]))).Bytes())
+			_, rerr := d.G.RemoveURR(k[0], pi)
+			if refuse {
+				d.K.SetFailCmd(vh.KCmdDelURR, 0)
+				if rerr != nil {
+					res.Count("urr_removals_refused_by_the_kernel", 1)
+				}
+			}
+			res.Count("urr_removals", 1)
+			delete(model, k)
+			x.hist = append(x.hist, fmt.Sprintf("remove seid=%#x urr=%d refused=%v", k[0], k[1], refuse))
 		}
 		// ---- PERIO registration against the model ----
 		if !d.PerioBarrier() {
